@@ -88,7 +88,7 @@ pub fn schema_string(src: &mut Src) -> String {
         return s;
     }
     if src.chance(170) {
-        src.pick(&["a", "b", "ab", "ba", "", "é", "z", "A", "😀", "日本", "a b", "1", "-2.5", "true", "[1]", "1e2", "e\u{301}"]).to_string()
+        src.pick(&["a", "b", "ab", "ba", "", "é", "z", "A", "😀", "日本", "a b", "1", "-2.5", "true", "[1]", "1e2", "e\u{301}", "\u{e9}", "ß", "SS", "ss", "ǆ", "İ", "i\u{307}", "\u{5d0}\u{5d1}", "\u{d7ff}", "\u{e000}", "\u{ffff}", "aab", "aba", "baa", "ﬁ", "fi"]).to_string()
     } else {
         gen_string(src)
     }
